@@ -17,7 +17,8 @@ POOL = "_threads/_pool.py"
 TP = "python/threadpool.py"
 CONV = "_threads/_convenience.py"
 QT = "twisted._threads._team.Team"
-TECHNIQUE = "ownership fixpoint over call graph, CFG must-pass/dominance, queue-end operation kinds"
+TECHNIQUE = ("ownership fixpoint over call graph (closures, bound private methods, functools.partial objects and instances of private callable classes handed to a worker "
+             "are read as the closure they stand for), CFG must-pass/dominance, queue-end operation kinds")
 EXPLANATION = (
     "Decides (workers, exactly once on the error path): an item that is called has left its queue before the call - taken by a removing read, or a removal "
     "from the same queue precedes the call on every path (createMemoryWorker.perform, the ThreadWorker thread loop). "
